@@ -9,6 +9,14 @@ all non-negative weights (klae_optimal), and objective consistency in full: the 
 (objective_consistent), so the objective clause of is_valid_solution() never rejects (objective_check_passes), and at an
 optimum it is the total scaled error recomputed from the returned paths (reported_objective_at_optimum); regression
 example: every optimum of a -> b -> c, f = (4,1), scaling {(a,b): 1/2} has solver and reported objective 3/2.
+Cyclic class (LP generator `klaecLP`, same file): klaec_sound (every satisfying assignment decodes per layer to a route of
+the user's graph, traversal counts = edge variables within the repetition caps, pi(e,i) = w_i * traversals_i(e) <= w_max,
+ee(e) >= |f(e) - sum_i w_i traversals_i(e)|, objective = sum scale*ee), klaec_complete_within_caps (every family of k
+weighted walks within the caps whose products w_i*traversals_i(e) and errors stay <= w_max is a satisfying assignment with
+objective sum scale*|..|), klaec_decoded_within_caps (converse), klaec_opt_within_caps / klaec_opt_tight (an LP optimum is
+optimal among all such bounded families, tight error columns) and klaec_wmax_cuts_optimum (Lean counterpart of finding
+C07-laecycles-wmax-cuts-optimum: on s -> a <-> b the LP optimum is 5 while a route within w_max and the repetition caps has
+error 2 — its product 8 exceeds w_max = 4).
 Tie: K2 LP-dump equality of kLeastAbsErrors (plain and given-weights) against klaeLP / klaeGivenLP; K1 evaluation of the
 spec vocabulary (driver op check.klae) on the solutions the real code returns, incl. the model of get_objective_value()
 evaluated on the returned edge_errors against the real get_objective_value(); K5 end-to-end oracle with a brute-force
@@ -24,8 +32,14 @@ THEOREMS = ["FP.Props.C07.klae_sound", "FP.Props.C07.klae_routes_valid", "FP.Pro
             "FP.Props.C07.klae_optimal", "FP.Props.C07.objective_consistent",
             "FP.Props.C07.objective_check_passes", "FP.Props.C07.reported_objective_at_optimum",
             "FP.Props.C07.objective_regression_example", "FP.Props.C07.every_optimum_consistent",
-            "FP.Props.C01.pathcore_sound", "FP.Props.C12.binProd_exact"]
-IMPORTS = ["FP.Props.C07", "FP.Props.C01", "FP.Props.C12"]
+            "FP.Props.C07.klaec_cap", "FP.Props.C07.klaec_sound", "FP.Props.C07.klaec_objective",
+            "FP.Props.C07.klaec_mult_bits", "FP.Props.C07.klaec_bits_of_le",
+            "FP.Props.C07.klaec_complete_within_caps", "FP.Props.C07.klaec_decoded_within_caps",
+            "FP.Props.C07.klaec_opt_within_caps", "FP.Props.C07.klaec_opt_tight",
+            "FP.Props.C07.klaec_wmax_cuts_optimum",
+            "FP.Props.C01.pathcore_sound", "FP.Props.C01.walkcore_sound", "FP.Props.C01.walk_routes_valid",
+            "FP.Props.C12.binProd_exact", "FP.Props.C04.intProdQ_sound"]
+IMPORTS = ["FP.Props.C07", "FP.Props.C01", "FP.Props.C12", "FP.Props.C04"]
 K2_ADAPTERS = ["klae", "klaec"]
 RULE = ("K2: random kLeastAbsErrors configurations (scaling incl. 0, ignore sets, additional starts/ends, given weights, "
         "constraints, lengths, option flags). K5: random instances with arbitrary non-negative integer values <= 4 "
@@ -37,7 +51,14 @@ RULE = ("K2: random kLeastAbsErrors configurations (scaling incl. 0, ignore sets
         "whose optimum is positive or that has >= 2 routes of non-zero weight.")
 MODEL_SCOPE = ("modelled and proven: DAG MILP route of kLeastAbsErrors without subpath constraints / length attribute for "
                "completeness and optimality (soundness: all configurations); given-weights LP modelled (K2) but not proven; "
-               "cyclic class: end-to-end oracle only (its encoder is modelled elsewhere); node-weighted inputs go through "
+               "cyclic class kLeastAbsErrorsCycles (edge mode, safety optimisations off; LP generator klaecLP tied by K2): "
+               "soundness for every configuration incl. subset constraints and empty walks (klaec_sound); completeness and "
+               "optimum transfer only for families of walks within the repetition caps whose products weight x traversals "
+               "and errors stay <= w_max (klaec_complete_within_caps, klaec_opt_within_caps; tight form without empty walks / "
+               "subset constraints) — unrestricted optimality is false for the code (klaec_wmax_cuts_optimum, finding "
+               "C07-laecycles-wmax-cuts-optimum), so there is no cyclic klae_optimal; the model identifies a column with "
+               "its HiGHS name (hypothesis KlaecNameInj: product blocks have distinct names); K5 end-to-end oracle on the "
+               "cyclic class as before; node-weighted inputs go through "
                "the node expansion of C11 and are not exercised here; get_objective_value is modelled as the sum of the "
                "error columns times their scale factors (FP.reportedObjective; rounding of solver values not modelled) and "
                "compared with the real method on every returned edge_errors dictionary (K1.objective_model)")
